@@ -17,9 +17,10 @@ from .relang import Lang
 from .rules_l import PROCBANK_REL, bank_patterns
 
 EVEN_QUOTES = r'[^"]*(?:"[^"]*"[^"]*)*$'
+EVEN_QUOTES_LINE = r'[^"\r\n]*(?:"[^"\r\n]*"[^"\r\n]*)*$'
 
 
-@rule("L5", "BANK-ALGORITHM: dependency closure marks before recursing, result is sorted(closure - root) + [root], one placeholder substitution", ["C13", "C15", "C11"], floor=6, soft=True, default_props=["C13"])
+@rule("L5", "BANK-ALGORITHM: dependency closure marks before recursing, result is sorted(closure - root) + [root], one placeholder substitution", ["C13", "C15", "C11", "C07"], floor=6, soft=True, default_props=["C13"])
 def l5(ctx: Ctx):
     py = pyfacts(ctx)
     ci = py.cls("ProcedureBank")
@@ -146,7 +147,7 @@ def l5(ctx: Ctx):
             except Exception:
                 split_ok = None
             break
-    ctx.idiom("load:line-split", split_ok is not None, bool(split_ok), "" if split_ok else f"add_from_str cuts the text with `{split_txt}`, which also breaks at characters other than CR/LF (form feed, U+2028 ...) that a user's string literal may contain: the literal is cut in two, quotes become unbalanced and a RUN on that line is missed", file=PROCBANK_REL, line=add.lineno, witness="" if split_ok else '10 PLAY "CDE\x0cFG"', props=["C13", "C11"])
+    ctx.idiom("load:line-split", split_ok is not None, bool(split_ok), "" if split_ok else f"add_from_str cuts the text with `{split_txt}`, which also breaks at characters other than CR/LF (form feed, U+2028 ...) that a user's string literal may contain: the literal is cut in two, quotes become unbalanced and a RUN on that line is missed", file=PROCBANK_REL, line=add.lineno, witness="" if split_ok else '10 PLAY "CDE\x0cFG"', props=["C13", "C11", "C07"])
     from .pyast import resolve_alias
 
     upd = [c for c in ast.walk(add) if isinstance(c, ast.Call) and isinstance(c.func, ast.Attribute) and c.func.attr == "update" and isinstance(c.func.value, ast.Subscript) and unparse(c.func.value.value) == "self._name_to_dependencies" and c.args]
@@ -181,6 +182,70 @@ def l5(ctx: Ctx):
     ctx.ob("convert:feeds-bank", ok6, "" if ok6 else "convert() does not load ecb.b09, then the emitted program, then ask for the closure of procname", file=COMPILER_REL, line=P.fn.lineno)
 
 
+_APPLY = {"findall": 0, "finditer": 0, "search": 0, "match": 0, "fullmatch": 0, "sub": 1, "subn": 1, "split": 0}
+_APPLY_RE = {"findall": 1, "finditer": 1, "search": 1, "match": 1, "fullmatch": 1, "sub": 2, "subn": 2, "split": 1}
+
+
+def _pattern_uses(ctx: Ctx, nm: str):
+    """(function, call, subject expression) for every application of the module-level pattern `nm` in procbank.py."""
+    py = pyfacts(ctx)
+    mod = py.mod(PROCBANK_REL)
+    out = []
+    for fn_ in [n for n in ast.walk(mod.tree) if isinstance(n, (ast.FunctionDef, ast.AsyncFunctionDef))]:
+        for c in ast.walk(fn_):
+            if not (isinstance(c, ast.Call) and isinstance(c.func, ast.Attribute)):
+                continue
+            subj = None
+            if isinstance(c.func.value, ast.Name) and c.func.value.id == nm and c.func.attr in _APPLY:
+                i = _APPLY[c.func.attr]
+                subj = c.args[i] if len(c.args) > i else next((k.value for k in c.keywords if k.arg == "string"), None)
+            elif isinstance(c.func.value, ast.Name) and c.func.value.id == "re" and c.func.attr in _APPLY_RE and c.args and isinstance(c.args[0], ast.Name) and c.args[0].id == nm:
+                i = _APPLY_RE[c.func.attr]
+                subj = c.args[i] if len(c.args) > i else next((k.value for k in c.keywords if k.arg == "string"), None)
+            if subj is not None:
+                out.append((fn_, c, subj))
+    return out
+
+
+def _cuts_lines(it: ast.AST, env) -> bool:
+    """`it` is an expression whose elements are single lines of a text joined by newlines."""
+    if isinstance(it, ast.Call) and isinstance(it.func, ast.Name) and it.func.id in ("enumerate", "list", "iter", "tuple") and it.args:
+        return _cuts_lines(it.args[0], env)
+    if not (isinstance(it, ast.Call) and isinstance(it.func, ast.Attribute)):
+        return False
+    a = it.func.attr
+    if a == "splitlines":
+        return True
+    if a == "split":
+        pat = None
+        if isinstance(it.func.value, ast.Name) and it.func.value.id == "re" and it.args and isinstance(it.args[0], ast.Constant) and isinstance(it.args[0].value, str):
+            pat = it.args[0].value
+        elif isinstance(it.func.value, ast.Name) and isinstance(env.get(it.func.value.id), RegexConst):
+            pat = env[it.func.value.id].pattern
+        elif it.args and isinstance(it.args[0], ast.Constant) and it.args[0].value == "\n":
+            return True
+        if pat is not None:
+            try:
+                return re.fullmatch(pat, "\n") is not None
+            except re.error:
+                return False
+    return False
+
+
+def _line_valued(fn_: ast.AST, subj: ast.AST, env) -> bool:
+    if not isinstance(subj, ast.Name):
+        return False
+    for n in ast.walk(fn_):
+        if isinstance(n, ast.For) and any(isinstance(t, ast.Name) and t.id == subj.id for t in ast.walk(n.target)):
+            if not _cuts_lines(n.iter, env):
+                return False
+            # enumerate(lines): the line is the second target
+            return True
+        if isinstance(n, ast.comprehension) and any(isinstance(t, ast.Name) and t.id == subj.id for t in ast.walk(n.target)):
+            return _cuts_lines(n.iter, env)
+    return False
+
+
 def _lookahead_tail(pattern: str, flags: int) -> Optional[str]:
     """If the pattern ends with a positive look-ahead, a Lang for the look-ahead's content (as text check)."""
     tree = sp.parse(pattern, flags)
@@ -207,6 +272,8 @@ def l6(ctx: Ctx):
     pats = bank_patterns(ctx)
     L = b09lib(ctx)
     ref = Lang.from_regex(EVEN_QUOTES)
+    ref_nl = Lang.from_regex(EVEN_QUOTES_LINE)
+    env_pb0 = fold_module(ctx, PROCBANK_REL)
     for nm in ("INVOKED_PROCEDURE_NAMES", "STR_STORAGE_TAG"):
         rc = pats[nm]
         sub = _lookahead_tail(rc.pattern, rc.flags)
@@ -218,7 +285,27 @@ def l6(ctx: Ctx):
         except Exception as e:
             raise AnalysisError("L6", nm, f"cannot build the look-ahead language: {e}")
         ok, w = got.equals(ref)
-        ctx.ob(f"{nm}:quote-guard", ok, "" if ok else f"the trailing look-ahead of `{nm}` is not the even-quote guard (differs on {w!r})", file=PROCBANK_REL, line=1, props=["C13", "C11", "C10"] if nm == "STR_STORAGE_TAG" else ["C13"])
+        # a guard written for one line at a time: same language without line terminators
+        ok_nl = got.equals(ref_nl)[0]
+        bounded = ok_nl and bool(rc.flags & re.MULTILINE)
+        ctx.ob(f"{nm}:quote-guard", ok or ok_nl, "" if ok or ok_nl else f"the trailing look-ahead of `{nm}` is not the even-quote guard (differs on {w!r})", file=PROCBANK_REL, line=1, props=["C13", "C11", "C10"] if nm == "STR_STORAGE_TAG" else ["C13"])
+        # ... and the quotes it counts are those of ONE line: a quote opened on a line is closed on that line (or never),
+        # so counting to the end of a multi-line text lets an unbalanced quote of a later line (REM SAY "HI) switch the guard
+        # off for everything before it
+        uses = _pattern_uses(ctx, nm)
+        ctx.need(uses, f"{nm}:uses", f"no application of `{nm}` found in procbank.py")
+        for fn_, call_, subj in uses:
+            per_line = _line_valued(fn_, subj, env_pb0)
+            oku = bounded or (per_line and (ok or ok_nl))
+            ctx.ob(
+                f"{nm}:guard-scope:{fn_.name}",
+                oku,
+                "" if oku else f"`{unparse(call_)[:80]}` applies `{nm}` to `{unparse(subj)}`, which is not one line of the text: the look-ahead counts quotes up to the end of the whole bundle, so one unbalanced quote on a later line (a comment) leaves every earlier " + ("placeholder unreplaced" if nm == "STR_STORAGE_TAG" else "RUN unrecorded"),
+                file=PROCBANK_REL,
+                line=call_.lineno,
+                witness='10 A$=STRING$(3,"X")\n20 REM SAY "HI',
+                props=["C13", "C10", "C07"] if nm == "STR_STORAGE_TAG" else ["C13"],
+            )
     # the RUN pattern sees a call wherever the tool (or the library) can put one on a line
     py0 = pyfacts(ctx)
     joiners = set()
